@@ -72,6 +72,14 @@ def oracle(case):
         if not fin(fs):
             v.append({"what": f"obstruction factor of a positioned window is not a finite number ({fs})", "key": {"class": "factor-not-finite"}})
             continue
+        # the window's own reveal surfaces are part of what can hide it: a set-back window has four of them (head, sill, two jambs),
+        # a flush one none — whatever the wall's tilt (their geometry is C13's object)
+        if "n_reveals" in w:
+            want = 4 if abs(w["setback"]) >= 0.01 else 0
+            _stats["windows_with_reveals" if want else "flush_windows"] += 1
+            if w["n_reveals"] != want:
+                v.append({"what": f"a window with set-back {w['setback']} is given {w['n_reveals']} reveal surfaces as obstacles, expected {want}",
+                          "key": {"class": "reveal-set", "n": w["n_reveals"]}})
         if fs < -1e-6 or fs > 1 + 1e-6:
             v.append({"what": f"obstruction factor {fs} outside [0,1]", "key": {"class": "factor-out-of-range"}})
         hrs = w["hours"]
